@@ -58,8 +58,16 @@ def wide(order, nbig, nsmall=2, name="user%03d-with-a-rather-long-mailbox-name")
 WIDE = wide("LR", 40) + wide("RL", 40) + wide("LR", 75)[:1] + wide("RL", 230, name="u%03d-remote-recipient-mailbox")[:1]
 
 
+# mail accepted during a long outage of the daemon: 6..40 fully queued messages, older than the 36-hour collection limit (or just younger) when
+# the daemon starts - its start-up sweep for debris and its todo scan work through the same files one entry per loop iteration, and every
+# one of these messages is owed to its recipients (added after seeded change C03-L)
+BACKLOG = [dict(base([{"sender": "s@rem.example", "rcpts": ["u%d@loc.example" % i, "v%d@rem.example" % i][:1 + i % 2], "body": "x\n"} for i in range(n)],
+                     {"1:0": "ZK", "3:0": "D"}, bscript="K", ctl={"queuelifetime": "1209600\n"}), backlog={"n": n, "age": age})
+           for n, age in ((6, 200000), (24, 259200), (40, 130000), (12, 100000))]
+
+
 def run(ctx):
-    q.search(ctx, "C03", TAGS, 0, 0, fixed=QQ_FILTER + WIDE)
+    q.search(ctx, "C03", TAGS, 0, 0, fixed=QQ_FILTER + WIDE + BACKLOG)
     # every single allocation of the daemon failing once (out of memory is a transient failure like any other): the daemon is built to sleep
     # and go on; it may leave a job open until its next start, so only the safety core is judged - no recipient dropped, no bounce lost
     q.search(ctx, "C03", TAGS, 0, 0, sweep={"all": True, "faults_only": True, "fault_classes": ["malloc"], "malloc": True, "tags": ["C03-drop"]}, fixed=FULLY_SWEPT)
